@@ -183,7 +183,10 @@ def _run_index_plan(plan: list, d: int, horizon: int, seed: int) -> dict:
             if got != want:
                 failures.append([t, fn, args, got, want])
 
-    sch = Scheduler(prefixes=(os.path.join(common.KIO_DIR, "index.py"),))
+    # yield points in every kio file the index may call into (a helper module next to index.py is still the index); the generated schema
+    # modules and kio.static (executed while a schema module is being imported, i.e. under an import lock) stay atomic
+    sch = Scheduler(prefixes=(common.KIO_DIR + os.sep,),
+                    exclude=(os.path.join(common.KIO_DIR, "schema") + os.sep, os.path.join(common.KIO_DIR, "static") + os.sep, os.path.join(common.KIO_DIR, "serial") + os.sep))
     sch.start()
     try:
         s, done = sch.run([lambda t=t: body(t) for t in range(len(plan))], seed=seed, d=d, horizon=horizon)
@@ -328,6 +331,11 @@ def run_c08(tier_: str) -> int:
             if index.load_response_from_request(rq_i) is not rs or index.load_request_from_response(rs_i) is not rq:
                 res.violation(f"pair-by-instance:{api}:v{ver}", f"{api} v{ver}: pairing functions give another class for an instance than for its class", {"api": api, "version": ver})
             res.count("pairs_by_instance")
+            # ... and however the argument is passed (keyword calls, by class and by instance)
+            if (index.load_response_from_request(request_type=rq) is not rs or index.load_request_from_response(response_type=rs) is not rq
+                    or index.load_response_from_request(request_type=rq_i) is not rs or index.load_request_from_response(response_type=rs_i) is not rq):
+                res.violation(f"pair-by-keyword:{api}:v{ver}", f"{api} v{ver}: pairing functions give another class when the argument is passed by keyword", {"api": api, "version": ver})
+            res.count("pairs_by_keyword")
         except Exception as exc:  # noqa: BLE001
             res.violation(f"pair-by-instance-raises:{api}:v{ver}", f"{api} v{ver}: pairing by instance raised {exc!r}", {"api": api, "version": ver, "error": traceback.format_exc()})
         if a is not rs or b is not rq or a2 is not rs or b2 is not rq:
@@ -394,6 +402,17 @@ def run_c09(tier_: str) -> int:
                     other = truth.get((api, ver, "response" if typ == "request" else "request"))
                     sib = index.load_response_from_request(cls) if typ == "request" else index.load_request_from_response(cls)
                     ok = ok and other is not None and sib is other[1]
+                # the same lookups spelled with keyword arguments (all-keyword and mixed), interleaved with the positional ones: how the
+                # arguments are passed must not matter
+                ok = ok and index.load_entity_schema(name=api, version=ver, entity_type=et) is cls
+                ok = ok and index.load_entity_module(api, version=ver, entity_type=et) is module
+                ok = ok and index.load_entity_module(name=api, version=ver, entity_type=et) is module
+                if typ in ("request", "response"):
+                    ok = ok and index.load_payload_module(api_key=k, version=ver, entity_type=et) is module
+                    ok = ok and (index.load_request_schema(api_key=k, version=ver) if typ == "request" else index.load_response_schema(k, version=ver)) is cls
+                    sibk = index.load_response_from_request(request_type=cls) if typ == "request" else index.load_request_from_response(response_type=cls)
+                    ok = ok and other is not None and sibk is other[1]
+                res.count("keyword_call_entries")
             except Exception as exc:  # noqa: BLE001
                 res.violation(f"unreachable:{api}:v{ver}:{typ}" + ("" if when == "first" else ":after-misses"),
                               f"{module.__name__} is not reachable through the index{'' if when == 'first' else ' after earlier lookups of non-existent entities'}: {exc!r}",
